@@ -6,15 +6,31 @@ Text and attribute values range over the whole Unicode range minus what a confor
 from .roundtrip import C, E, T, node
 
 VOID = {"area", "base", "br", "col", "embed", "hr", "img", "input", "link", "meta", "param", "source", "track", "wbr"}
-FLOW_ONLY = ["div", "p", "ul", "ol", "dl", "table", "pre", "h1", "h2", "blockquote", "form", "fieldset", "hr", "address", "main",
+FLOW_ONLY = ["article", "aside", "header", "footer", "h3", "h4", "h5", "h6", "menu", "div", "p", "ul", "ol", "dl", "table", "pre", "h1", "h2", "blockquote", "form", "fieldset", "hr", "address", "main",
              "section", "nav", "figure", "dialog", "details"]
 PHRASING = ["a", "span", "b", "i", "em", "label", "button", "input", "img", "br", "select", "textarea", "ruby", "script", "link",
             "meta", "svg", "math"]
 INTERACTIVE = {"a", "button", "select", "textarea", "input", "label", "details"}
-HOLDS_FLOW = {"body", "div", "li", "dd", "dt", "td", "th", "blockquote", "section", "nav", "main", "figure", "figcaption",
+HOLDS_FLOW = {"article", "aside", "header", "footer", "body", "div", "li", "dd", "dt", "td", "th", "blockquote", "section", "nav", "main", "figure", "figcaption",
               "fieldset", "form", "details", "dialog", "caption", "address"}
-HOLDS_PHRASING = {"p", "h1", "h2", "span", "b", "i", "em", "pre", "label", "button", "summary", "legend", "rt"}
+HOLDS_PHRASING = {"h3", "h4", "h5", "h6", "p", "h1", "h2", "span", "b", "i", "em", "pre", "label", "button", "summary", "legend", "rt"}
 GLOBAL = ["id", "class", "title", "lang", "dir"]
+HEADING_SECTION = {"h1", "h2", "h3", "h4", "h5", "h6", "section", "nav", "article", "aside", "hgroup", "header", "footer"}
+# names the parsing algorithm mentions (mirror of ContentModel.tla!CmParserNames; only used to guess which handed names are
+# extension elements - TLC's CmConforming has the last word)
+PARSER_NAMES = set("""a address applet area article aside b base basefont bgsound big blockquote body br button caption center code col
+colgroup command dd details dialog dir div dl dt em embed fieldset figcaption figure font footer form frame frameset h1 h2 h3 h4 h5 h6 head
+header hgroup hr html i iframe image img input isindex keygen li link listing main marquee math menu menuitem meta nav nobr noembed noframes
+noscript object ol optgroup option p param plaintext pre rb rp rt rtc ruby s script section select small source span strike strong style sub
+summary sup svg table tbody td template textarea tfoot th thead title tr track tt u ul var wbr xmp label legend em""".split())
+EXTENSION = ["x-y", "data"]
+
+
+def set_extension_names(names):
+    """complete the extension-element alphabet from the names the check hands in (harvested from the tree under test)"""
+    ext = [n for n in names if n not in PARSER_NAMES and n not in FLOW_ONLY and n not in PHRASING]
+    EXTENSION[:] = sorted(set(["x-y", "data"] + ext))
+
 ATTRS = {"a": ["href"], "img": ["src", "alt", "width", "height"], "input": ["type", "name", "value"], "option": ["value"],
          "select": ["name"], "button": ["type", "name", "value"], "textarea": ["name", "rows", "cols"], "form": ["action", "method", "name"],
          "label": ["for"], "td": ["colspan", "rowspan"], "th": ["colspan", "rowspan"], "col": ["span"], "colgroup": ["span"], "ol": ["start"],
@@ -113,7 +129,7 @@ class Gen(object):
                 kids.append(C("c"))
                 continue
             names = PHRASING + (FLOW_ONLY if model == "flow" else [])
-            name = self.rng.choice(names)
+            name = self.rng.choice(names) if self.rng.random() < 0.93 else self.rng.choice(EXTENSION)
             c = self.elem(name, model, flags, depth + 1)
             if c is not None:
                 kids.append(c)
@@ -122,7 +138,7 @@ class Gen(object):
     def elem(self, name, model, flags, depth):
         f = set(flags)
         if "noA" in f and name == "a" or "noInt" in f and name in INTERACTIVE or "noLabel" in f and name == "label" or \
-                "noForm" in f and name == "form" or "noTable" in f and name == "table" or "noHS" in f and name in ("h1", "h2", "section", "nav") or \
+                "noForm" in f and name == "form" or "noTable" in f and name == "table" or "noHS" in f and name in HEADING_SECTION or "noHF" in f and name in ("header", "footer") or \
                 "noAddr" in f and name == "address" or "noMain" in f and name == "main" or "noRuby" in f and name == "ruby":
             return None
         if name not in ("body", "div", "form"):
@@ -136,6 +152,8 @@ class Gen(object):
             return self.el(name)
         if name == "a":
             return self.el(name, self.flow(model, f | {"noA", "noInt"}, depth))
+        if name in EXTENSION:                # custom element: transparent; other extension element: phrasing content
+            return E(name, *self.flow(model if "-" in name else "phrasing", f, depth), a=attrs(rng, "span"))
         if name in HOLDS_PHRASING:
             extra = {"label": {"noLabel", "noInt"}, "button": {"noInt"}}.get(name, set())
             kids = self.flow("phrasing", f | extra, depth)
@@ -145,7 +163,7 @@ class Gen(object):
                 else:
                     kids.insert(0, T("\n" + text(rng)))
             return self.el(name, kids)
-        if name in ("ul", "ol"):
+        if name in ("ul", "ol", "menu"):
             kids = []
             for _ in range(rng.choice([0, 1, 2, 3])):
                 self.sep(kids)
@@ -250,7 +268,7 @@ class Gen(object):
                     kids.append(E("annotation-xml", *self.flow("flow", f | {"noMain"}, depth + 1), ns="math", a=[("", "encoding", "text/html")]))
             return E("math", *kids, ns="math")
         if name in HOLDS_FLOW:
-            extra = {"form": {"noForm"}, "address": {"noHS", "noAddr"}}.get(name, set())
+            extra = {"form": {"noForm"}, "address": {"noHS", "noAddr"}, "header": {"noHF"}, "footer": {"noHF"}}.get(name, set())
             return self.el(name, self.flow("flow", f | extra, depth))
         return None
 
